@@ -111,3 +111,9 @@ Theorem C06_decoupled_gp_accounting : forall costs idx n c,
      snd (Gen_extra3.gen_decoupled_evaluating costs idx n c) = (c + fold_right Qplus 0%Q (map (fun k => nth k cs 0%Q) idx))%Q).
 Proof. exact ExtraRefine3.gen_decoupled_evaluating_spec. Qed.
 Print Assumptions C06_decoupled_gp_accounting.
+
+(* Auer.evaluating, regenerated: every design of S is evaluated once and counted once *)
+From VOPyGen Require Gen_extra4.
+Theorem C06_auer_accounting : forall S n, Gen_extra4.gen_auer_evaluating S n = (S, (n + length S)%nat).
+Proof. reflexivity. Qed.
+Print Assumptions C06_auer_accounting.
